@@ -15,7 +15,7 @@ class C15Check(ExplainerCheck):
     prop = "C15"
     oracle_classes = (C15Oracle,)
     design_ref = "DESIGN.md section 4, C15"
-    runs = {"quick": 2400, "thorough": 120000}
+    runs = {"quick": 2400, "thorough": 400000}
 
     def gen(self, seed, tier, run_index):
         rng = seeds.run_rng(seed, self.prop, tier, run_index)
@@ -47,7 +47,7 @@ class C16Check(ExplainerCheck):
     prop = "C16"
     oracle_classes = (C16Oracle,)
     design_ref = "DESIGN.md section 4, C16"
-    runs = {"quick": 2400, "thorough": 120000}
+    runs = {"quick": 2400, "thorough": 500000}
 
     def gen(self, seed, tier, run_index):
         rng = seeds.run_rng(seed, self.prop, tier, run_index)
@@ -191,7 +191,7 @@ class C17Check(ExplainerCheck):
     oracle_classes = (C17Oracle,)
     design_ref = "DESIGN.md section 4, C17"
     n_base = {"quick": 40, "thorough": 400}
-    n_random = {"quick": 2000, "thorough": 100000}
+    n_random = {"quick": 2000, "thorough": 300000}
     rule = ("enumerated part: for each of N small base deployments (10 per explainer class at the quick tier) one run per "
             "crash point k = 1..K, the k-th call-out of any kind (model, loss, imputer, storage) inside a chosen "
             "estimating explain_one raises; random part: seeded (configuration, schedule, up to 3 faulted operations, "
